@@ -18,16 +18,40 @@ type aclNet struct {
 }
 
 var (
-	aclClient net.IP // what net.ParseIP returns for the client host
-	aclNets   map[string]*aclNet
+	aclClient   net.IP // what net.ParseIP returns for the client host
+	aclHostText string // the only host text VParseIP recognises
+	aclNets     map[string]*aclNet
 )
 
 // VSplitHostPort / VParseIP / VParseCIDR replace the net functions under symbolic execution.
 // Contract: ParseIP returns the 16-byte form (IPv4 as ::ffff:a.b.c.d); ParseCIDR returns the
 // network with its address masked to the prefix and a mask of the address family's length.
-func VSplitHostPort(hostport string) (string, string, error) { return "H", "1", nil }
+// VSplitHostPort follows net.SplitHostPort for the two shapes a TCP peer address has:
+// "host:port" and "[ipv6]:port".
+func VSplitHostPort(hostport string) (string, string, error) {
+	i := strings.LastIndex(hostport, ":")
+	if i < 0 {
+		return "", "", &net.AddrError{Err: "missing port in address", Addr: hostport}
+	}
+	host, port := hostport[:i], hostport[i+1:]
+	if strings.HasPrefix(host, "[") {
+		if !strings.HasSuffix(host, "]") {
+			return "", "", &net.AddrError{Err: "missing ']' in address", Addr: hostport}
+		}
+		host = host[1 : len(host)-1]
+	} else if strings.Contains(host, ":") {
+		return "", "", &net.AddrError{Err: "too many colons in address", Addr: hostport}
+	}
+	return host, port, nil
+}
 
-func VParseIP(s string) net.IP { return aclClient }
+// VParseIP maps exactly the expected host text to the symbolic client address.
+func VParseIP(s string) net.IP {
+	if s != aclHostText {
+		return nil
+	}
+	return aclClient
+}
 
 func VParseCIDR(s string) (net.IP, *net.IPNet, error) {
 	n := aclNets[s]
@@ -142,12 +166,17 @@ func HACL() {
 		acls = append(acls, s)
 		rules = append(rules, r)
 	}
-	remote := "H:1"
+	remote := "192.0.2.1:1234"
+	aclHostText = "192.0.2.1"
 	if vsymbolic() {
 		if clientIs4 {
 			aclClient = net.IPv4(client[0], client[1], client[2], client[3])
+			if fam == 2 {
+				remote, aclHostText = "[::ffff:192.0.2.1]:1234", "::ffff:192.0.2.1"
+			}
 		} else {
 			aclClient = net.IP(client)
+			remote, aclHostText = "[2001:db8::1]:1234", "2001:db8::1"
 		}
 	} else {
 		switch fam {
@@ -215,7 +244,8 @@ func HACLDaemon() {
 	deny := nd_bool()
 	aclNets = map[string]*aclNet{"N0": n}
 	tok := "N0"
-	remote := "H:1"
+	remote := "192.0.2.1:1234"
+	aclHostText = "192.0.2.1"
 	if vsymbolic() {
 		aclClient = net.IPv4(client[0], client[1], client[2], client[3])
 	} else {
